@@ -239,7 +239,7 @@ def gen_case(rng):
     if rng.random() < 0.25:
         s["winds"] = [[round(rng.uniform(40, 90), 1), rng.choice([180.0, 180.0, 0.0, 90.0]), None]]
     if rng.random() < 0.4:
-        s["atmo"] = {"kind": "icao", "alt_ft": rng.choice([0.0, 1500.0, 5000.0, 9000.0])}
+        s["atmo"] = {"kind": "icao", "alt_ft": rng.choice([0.0, 1500.0, 5000.0, 9000.0, -300.0, -1500.0])}
     alt0 = s["atmo"].get("alt_ft", 0.0)
     cfg = {}
     if rng.random() < 0.8:
@@ -249,7 +249,8 @@ def gen_case(rng):
         cfg["cMaximumDrop"] = rng.choice([-15000.0, -1000.0, -50.0, -1.0, 0.0, -3000.0, -0.9, -10.75, round(-rng.uniform(0.1, 300), 3),
                                           -7, -250])      # whole and fractional feet, floats and ints
     if rng.random() < 0.6:
-        cfg["cMinimumAltitude"] = rng.choice([alt0 - 100.0, alt0 - 5.0, alt0, 0.0, alt0 - 1000.0])
+        cfg["cMinimumAltitude"] = rng.choice([alt0 - 100.0, alt0 - 5.0, alt0, 0.0, alt0 - 1000.0, 0, -0.0,
+                                              alt0 + 0.1, alt0 + 40.0, alt0 + 2000.0])      # also a floor above the firing point
     if rng.random() < 0.1:
         cfg["max_calc_step_size_feet"] = rng.choice([1.0, 2.0])
     # keep the worst-case flight (and therefore CPU time) bounded: tight-ish drop limit for fast vertical shots
